@@ -416,6 +416,68 @@ func manySegmentsBody(c *mc.Ctx, item int) mc.Verdict {
 	return mc.Pass("many-segments-ok", true)
 }
 
+// trailingBody: whatever follows the end marker (a final newline, CR LF, padding,
+// more bytes) is not part of the stream: 0..8 bytes of four kinds behind the
+// marker, for a few streams, caller buffers and source behaviours.
+var trailKinds = []string{"line feeds", "CR LF pairs", "zero bytes", "bytes starting with 0x80"}
+var trailStreams = [][]seg{{}, {{1, 3}}, {{2, 2}}, {{1, 1}, {2, 1}}, {{2, 0}, {1, 0}}}
+
+func trailingBody(c *mc.Ctx, item int) mc.Verdict {
+	k := item % 9
+	kind := (item / 9) % len(trailKinds)
+	st := stream{segs: trailStreams[(item/9/len(trailKinds))%len(trailStreams)], ending: endMarker}
+	bufSize := manyBufs[(item/9/len(trailKinds)/len(trailStreams))%len(manyBufs)]
+	mode := item / 9 / len(trailKinds) / len(trailStreams) / len(manyBufs)
+	data, want, _ := st.build()
+	for i := 0; i < k; i++ {
+		switch kind {
+		case 0:
+			data = append(data, '\n')
+		case 1:
+			data = append(data, "\r\n"[i%2])
+		case 2:
+			data = append(data, 0)
+		default:
+			data = append(data, []byte{0x80, 1, 2, 0, 0, 0, 'x', 'y'}[i])
+		}
+	}
+	src := env.NewSource(data)
+	src.Decide = func(call, req, remaining int) (int, bool) {
+		switch mode {
+		case 1:
+			return 1, false
+		case 2:
+			return req, true // EOF together with the last bytes
+		}
+		return req, false
+	}
+	r := pfb.Decode(src)
+	var got []byte
+	buf := make([]byte, bufSize)
+	var err error
+	for steps := 0; steps < 1000; steps++ {
+		var n int
+		n, err = r.Read(buf)
+		got = append(got, buf[:n]...)
+		if err != nil {
+			break
+		}
+	}
+	c.Steps(src.Calls)
+	what := fmt.Sprintf("%s, end marker, then %d %s; caller buffer %d; source mode %d", st.String(), k, trailKinds[kind], bufSize, mode)
+	if err != io.EOF {
+		v := mc.Fail("C14:after-end-marker:error", fmt.Sprintf("%s: ended with %v after %d of %d output bytes", what, err, len(got), len(want)))
+		v.Render = what
+		return v
+	}
+	if !bytes.Equal(got, want) {
+		v := mc.Fail("C14:after-end-marker:wrong-output", fmt.Sprintf("%s: output %q, expected %q", what, got, want))
+		v.Render = what
+		return v
+	}
+	return mc.Pass("trailing-bytes-ignored", true)
+}
+
 func main() {
 	mc.Main(mc.Program{
 		Property: "C14",
@@ -463,6 +525,13 @@ func main() {
 				Body:   manySegmentsBody,
 				Budget: budget,
 				Rule:   fmt.Sprintf("item = number of leading segments %v x pattern %q x caller buffer %v x source {full reads, one byte per read, every other call an empty read (0, nil)}: the leading segments are followed by a 5-byte text segment, a 3-byte binary segment and the end marker; the output must be exactly the segment contents and end with io.EOF; non-trivial = all", manyCounts, manyPatterns, manyBufs),
+			})
+			fams = append(fams, mc.Family{
+				Name:   "bytes-after-the-end-marker",
+				Items:  9 * len(trailKinds) * len(trailStreams) * len(manyBufs) * 3,
+				Body:   trailingBody,
+				Budget: budget,
+				Rule:   fmt.Sprintf("item = 0..8 bytes behind the end marker x kind %q x 5 streams (none, text3, bin2, text1+bin1, two empty segments) x caller buffer %v x source {full reads, one byte per read, io.EOF together with the last bytes}: the output is the segment contents and ends with io.EOF whatever follows the marker; non-trivial = all", trailKinds, manyBufs),
 			})
 			return append(fams,
 				mc.Family{
